@@ -137,6 +137,19 @@ class NumericMixin:
   def np_abs(self, it, a, k):
     return self.bi_abs(it, a, k)
 
+  # elementwise logic: an operand counts as true when it is non-zero (NaN is non-zero)
+  def np_logical_and(self, it, a, k):
+    return VBool(z3.And(self.truth(a[0]), self.truth(a[1])))
+
+  def np_logical_or(self, it, a, k):
+    return VBool(z3.Or(self.truth(a[0]), self.truth(a[1])))
+
+  def np_logical_xor(self, it, a, k):
+    return VBool(z3.Xor(self.truth(a[0]), self.truth(a[1])))
+
+  def np_logical_not(self, it, a, k):
+    return VBool(z3.Not(self.truth(a[0])))
+
   def np_log2(self, it, a, k):
     x = self.to_real(a[0])
     return VReal(log2_fn(x.t), z3.Or(x.nan, x.t <= 0))
